@@ -272,6 +272,9 @@ def run_case(case) -> Outcome:
                 out.violate("copy", f"C04.copy/{o}-raised/{type(exc).__name__}/{'+'.join(kinds) or 'plain'}", f"{src}args={case['args']}: {exc!r}")
                 unchanged(o)
                 continue
+            lost = [n for n in names if hasattr(x, n) and not hasattr(y, n)]
+            if lost:
+                out.violate("copy", f"C04.copy/{o}-attribute-lost", f"{src}attributes {lost} of {x!r} are missing in the {o}")
             if type(y) is not type(x):
                 out.violate("copy", f"C04.copy/{o}-class-changed", f"{type(y)}")
             else:
@@ -443,6 +446,13 @@ def strategy(tier):
     def cases(draw):
         cls, _ = c05.gen_class(draw, broken_defaults=False, min_attrs=draw(st.sampled_from([1, 2, 2])))
         args, _ = c05.gen_args(draw, cls, "good", omit_required=False)
+        # an attribute whose annotation admits Missing and that has NO class-level default may simply be left out: the
+        # instance then holds MISSING for it (and copies must hold it too)
+        for a in cls["attrs"]:
+            t = a["term"]
+            admits = t["t"] == "missing" or (t["t"] == "union" and any(x["t"] == "missing" for x in t["alts"]))
+            if admits and a.get("default") is None and draw(st.booleans()):
+                args[a["name"]] = None
         attrs = cls["attrs"]
         ctx = {"targ": cls["targ"], "self_attrs": attrs}
         n = len(attrs)
@@ -585,7 +595,33 @@ def strategy(tier):
             script.append({"o": "eq", "other": draw(st.sampled_from(["twin", "self", "diff1"])), "attr": 0, "val": _type_twin(picks[0][1])})
         return {"cls": {"generic": False, "targ": None, "attrs": attrs}, "args": args, "script": script}
 
-    return st.one_of(cases(), cases(), cases(), nested_cases(), twin_cases(), history_cases())
+    @st.composite
+    def missing_cases(draw):
+        """attributes that admit Missing, with and without a class-level default, given or left out: MISSING is an
+        attribute VALUE like any other for copy / deepcopy / updated / equality"""
+        terms = [
+            T_("union", alts=[T_("int"), T_("missing")]),
+            T_("missing"),
+            T_("union", alts=[T_("seq", of=T_("int")), T_("missing")]),
+            T_("union", alts=[T_("missing"), T_("str")]),
+        ]
+        picks = draw(st.lists(st.sampled_from(terms), min_size=1, max_size=3))
+        attrs, args = [], {}
+        for i, t in enumerate(picks):
+            with_default = draw(st.booleans())
+            attrs.append({"name": f"a{i}", "term": t, "default": V_("missing") if with_default else None})
+            given = draw(st.sampled_from(["omit", "omit", "value"]))
+            alt = next((x for x in t.get("alts", []) if x["t"] != "missing"), None)
+            if given == "value" and alt is not None:
+                args[f"a{i}"] = {"int": V_("int", x=3), "str": V_("str", x="s"), "seq": V_("list", items=ints(1, 2))}[alt["t"]]
+            else:
+                args[f"a{i}"] = None
+        script = [{"o": draw(st.sampled_from(["copy", "deepcopy"]))}, {"o": "eq", "other": "twin", "attr": 0, "val": None},
+                  {"o": "updated", "repl": {}, "unknown": draw(st.booleans())}, {"o": draw(st.sampled_from(["copy", "deepcopy"]))},
+                  {"o": "inplace", "target": draw(st.sampled_from(["copy", "deepcopy", "updated"]))}]  # fmt: skip
+        return {"cls": {"generic": False, "targ": None, "attrs": attrs}, "args": args, "script": script}
+
+    return st.one_of(cases(), cases(), cases(), nested_cases(), twin_cases(), history_cases(), missing_cases())
 
 
 def budget(tier):
